@@ -34,6 +34,9 @@ DocBounds ==
     hwb      |-> << Free, Unit, Unit >>,
     linluma  |-> << Unit >>,
     srgbluma |-> << Unit >>,
+    \* CAM16-UCS: "lightness: 0 to 100", colourfulness "0 and up", a' and b' unbounded (bounds contract only, no conversions here)
+    cam16ucsjab |-> << <<Q(0, 1), Q(100, 1)>>, Free, Free >>,
+    cam16ucsjmh |-> << <<Q(0, 1), Q(100, 1)>>, <<Q(0, 1), NoB>>, Free >>,
     \* cone responses: "the typical range is between 0.0 and 1.0, but it doesn't have an actual upper bound"
     lmsvk    |-> << <<Q(0, 1), NoB>>, <<Q(0, 1), NoB>>, <<Q(0, 1), NoB>> >>,
     lmsbfd   |-> << <<Q(0, 1), NoB>>, <<Q(0, 1), NoB>>, <<Q(0, 1), NoB>> >>,
